@@ -110,7 +110,10 @@ def _uniform_after(ev, k):
     return out
 
 
-def _judge(V, stats, kind, accepted, delta, u, what, extra=0.0, scale=0.0):
+COLLECT = None  # layer D: list of (stratum, log ratio, accepted) for every judged attempt of a run
+
+
+def _judge(V, stats, kind, accepted, delta, u, what, extra=0.0, scale=0.0, feature="all"):
     """MH rule: accepted <=> u < exp(delta + extra) (ties skipped; no uniform => must be uphill).
     `scale` = magnitude of the terms whose difference is delta: a log ratio that is a difference of
     huge numbers (tail draws) is only known to ~1e-12 * scale and is not judged inside that band."""
@@ -119,6 +122,8 @@ def _judge(V, stats, kind, accepted, delta, u, what, extra=0.0, scale=0.0):
     if math.isnan(la):
         stats["warn_nan_log_ratio"] += 1
         return
+    if COLLECT is not None:
+        COLLECT.append((feature, la, bool(accepted)))
     unc = 1e-12 * abs(scale)
     if unc > 0:
         if abs(la) <= unc:
@@ -402,7 +407,8 @@ def refine_hmc(V, stats, h, ev, w, rec, seq0):
         H1 = _kinetic(h, r1) - val / T
         _judge(V, stats, "hmc", acc, H0 - H1, _uniform_after(ev, k),
                "the trajectory %r -> %r (H0=%.9g, H1=%.9g)" % (t0.tolist(), t1.tolist(), H0, H1),
-               scale=abs(_kinetic(h, r0)) + abs(_kinetic(h, r1)) + (abs(Lw) + abs(val)) / T)
+               scale=abs(_kinetic(h, r0)) + abs(_kinetic(h, r1)) + (abs(Lw) + abs(val)) / T,
+               feature="long trajectory" if ns >= int(getattr(h.chain, "steps", ns)) else "short trajectory")
         # reversibility of the actual proposal (measured by the recorder right after the forward run)
         err = cl[6]
         im_ = h.cfg["knobs"].get("inverse_mass")
@@ -551,6 +557,10 @@ def refine_ensemble(V, stats, h, ev, X, LX, X_after):
             return None
         ok_any = False
         why = ""
+        if COLLECT is not None and len(good_c) == 1 and good_c[0][2] < 1e-6:
+            la_ = (d - 1) * math.log(good_c[0][1]) + (val - LX[i])
+            if not math.isnan(la_):
+                COLLECT.append(("all", la_, bool(acc)))
         for j, z, zerr in good_c:
             la = (d - 1) * math.log(z) + (val - LX[i])
             good = True
@@ -852,7 +862,47 @@ def run_job(job):
                     sample=dict(job=job, worst_functional=worst[0] if worst else None, chi2_19=worst[1] if worst else None))
     if layer == "C":
         return _run_C(job)
+    if layer == "D":
+        return _run_D(job)
     raise ValueError(layer)
+
+
+def _run_D(job):
+    """Calibration of the decisions: over a long run of the real sampler the number of accepted attempts must equal
+    the sum of their Metropolis-Hastings probabilities up to binomial noise - overall and inside every stratum
+    defined by a feature of the PROPOSAL (HMC: trajectory longer / shorter than nominal).  Needs no knowledge of
+    which random number a decision used; catches decisions that are coupled to the way the move was proposed."""
+    global COLLECT
+    COLLECT = []
+    try:
+        r = execute(dict(cfg=job["cfg"], ops=[["steps", int(job["steps"])]], faults=dict(tail_p=0.0, edge_u_p=0.0)))
+        data = COLLECT
+    finally:
+        COLLECT = None
+    V = [v for v in r["violations"]]
+    stats = collections.Counter(r["stats"])
+    strata = {}
+    for f, la, acc in data:
+        a = 1.0 if la >= 0 else math.exp(max(la, -745.0))
+        for key in {f, "all"}:
+            s = strata.setdefault(key, [0.0, 0.0, 0])
+            s[0] += (1.0 if acc else 0.0) - a
+            s[1] += a * (1.0 - a)
+            s[2] += 1
+    worst = None
+    for key, (dev, var, n) in sorted(strata.items()):
+        if var < 25.0:
+            continue
+        z = dev / math.sqrt(var)
+        stats["calibration_strata_tested"] += 1
+        if worst is None or abs(z) > abs(worst[1]):
+            worst = (key, z, n)
+        if abs(z) > 6.5 and not V:
+            _viol(V, "D.calibration", "%s: among %d attempts (%s) the number accepted differs from the sum of their Metropolis-Hastings "
+                  "probabilities by %+.1f, %.1f standard deviations: the decisions are not taken with the Metropolis-Hastings "
+                  "probability of the proposed move" % (job["cfg"]["kind"], n, key, dev, z), sampler=job["cfg"]["kind"], layer="D")
+    return dict(violations=V, stats=dict(stats), evaluations=len(data), digests=[digest(job)], nontrivial_ids=[digest(job)],
+                sample=dict(job=dict(kind=job["cfg"]["kind"], steps=job["steps"]), worst_stratum=worst))
 
 
 def _run_C(job):
@@ -967,6 +1017,17 @@ def stat_jobs(tier, seed):
         cj.setdefault("L", L)
         cj.setdefault("tag", cj["kind"])
         jobs.append(cj)
+    knobs = dict(chk_int=100, max_tries=50, dir_update_interval=100, steps=6, es_chk_int=15, alpha=2.0)
+    for i, (kind, tg, extra) in enumerate([("hmc", g2, {}), ("hmc", cg, dict(T=2.0)), ("gibbs", lap, {}), ("metropolis", g2, {}),
+                                           ("pca", cg, {}), ("ensemble", g2, dict(n_walkers=6))]):
+        d_ = tg["d"]
+        cfg = dict(kind=kind, d=d_, T=float(extra.get("T", 1.0)), seed=(seed * 1000211 + i) & 0x7FFFFFFF, display=False, target=tg,
+                   bounds=None, widths=[1.0] * d_, epsilon=0.2, knobs=dict(knobs, finite_diff=False))
+        if kind == "ensemble":
+            cfg["n_walkers"] = extra["n_walkers"]
+            cfg["knobs"]["max_attempts"] = 100
+        jobs.append(dict(layer="D", cfg=cfg, steps=(6000 if big else 2000) // (extra.get("n_walkers", 1)), seed=cfg["seed"], tag=kind + "-calibration"))
+    return jobs
     return jobs
 
 
